@@ -30,7 +30,7 @@ func init() {
 	register("C39", PropertyMeta{
 		Technique: "who-may-call audit (no OS file API in the source tools), path-validation dominance for fs lookups with interprocedural argument tracing, SSA bound checks on archive reading, map-iteration determinism of archive writing",
 		Explanation: "Decides: (archive-only) the code tools and the trace source never call an os/ioutil/filepath file API — content comes only through io/fs functions over Source.FS(); (valid-path) every io/fs lookup (ReadFile, ReadDir, Stat, Open) in the tools whose path derives from a string parameter is dominated by fs.ValidPath on that path, or receives it from callers that validated it or derived it from fs entries; archive entries enter the in-memory tree only under fs.ValidPath; " +
-			"(bounded-read) ReadArchive reads entry bytes only through io.LimitReader with a constant bound, stores an entry only after the per-file cap and the total cap held, the tested total being running total + len(this entry) on every path, and sizes no allocation from the archive header; (deterministic-write) WriteArchive iterates the file map in sorted order and writes no clock or random value.",
+			"(bounded-read) ReadArchive reads entry bytes only through io.LimitReader with a constant bound, stores an entry only after the per-file cap and the total cap held, the tested total being running total + len(this entry) on every path, and sizes no allocation from the archive header; (deterministic-write) WriteArchive iterates the file map in sorted order and writes no clock or random value. The sort that makes the write order deterministic compares the collected keys themselves, not a function of them (ties would keep map order).",
 		NotDecided:  "tar/gzip library behaviour; HTTP routing.",
 		Assumptions: []string{"fs.ValidPath rejects absolute and parent-escaping paths"},
 	}, runC39)
